@@ -31,6 +31,14 @@ previous conditional and must re-evaluate them): joints in which the conditional
 MultipleLikelihoodPosterior (ml_sp: s enters a likelihood and a prior; ml_2y: x enters two likelihoods; hier3h: d enters
 the densities of two other blocks) or a plain Distribution (prior2: no data, the conditional of x has no likelihood
 factor), that block sampled by spy / MH / (where the library offers the gradient) MALA / NUTS.
+
+Facet "value and representation of a block's configured step count" (HybridGibbs.num_sampling_steps): per block the
+count is one of {0, 1, 2, 3, block not listed, listed with the value None} - 0 HOLDS the block: no transition, it keeps
+its value in the current and in the stored samples and the other blocks condition on that constant value; a block that
+is not listed makes the documented default 1.  The complete product over the blocks, crossed with the dict-order facet,
+with the sampler class of the held block (every block sampler, held or not, is re-targeted and re-initialised at every
+visit; NUTS through a path of its own) and with the way the number is written: python int / numpy.int64 / float /
+bool.  Oracle: a run that is not refused makes exactly the integer number of transitions per visit.
 """
 import itertools
 import math
@@ -47,12 +55,15 @@ RULE = ("cell = (interface, joint, assignment of {spy, real...} samplers to bloc
         "init_point attribute on the block's density, an x0 on the legacy block sampler objects; the ORDER in which the "
         "JointDistribution lists the blocks (= sweep order); for cuqi.sampler.Gibbs the KEYS of the sampling strategy: "
         "plain names / tuples of names that give one sampler class to several blocks; the TYPE of the conditional target "
-        "of a block: Posterior / MultipleLikelihoodPosterior / plain Distribution, decided by the joint); "
+        "of a block: Posterior / MultipleLikelihoodPosterior / plain Distribution, decided by the joint; the VALUE of each "
+        "block's step count: 0 (the block is held) / 1 / 2 / 3 / block not listed / listed with None, and its "
+        "REPRESENTATION: python int / numpy.int64 / float / bool); "
         "inside a cell ALL operation sequences of the tier's depth are executed (prefix histories are judged at "
         "every operation end, so a depth-3 execution decides its 3 prefixes) and, with MH / MALA / NUTS blocks, all leaves of "
         "the decision tree of their uniform draws inside the stated deviation bound; state = (history, decision "
         "prefix); transition = one block-sampler step on the real code, judged for: which block, how many "
-        "transitions per visit (the count configured for THAT block by name, default 1), start point = the block's "
+        "transitions per visit (the integer count configured for THAT block by name, default 1; 0 = none: the block "
+        "keeps its value, the others condition on it, the stored samples repeat it), start point = the block's "
         "current value (first sweep of the run: the initial value supplied for that block; every later sweep, also the "
         "first one of a continuation call: the value stored by the previous sweep), target (log-density, for gradient kernels also gradient, at probes) = joint conditioned on the "
         "current others, evaluations the kernel has cached for its start (MH log-density, MALA / NUTS log-density and "
@@ -91,7 +102,17 @@ BOUND = {
              "in two priors), prior2 (no data: plain Distribution): the non-Posterior block x {spy, MH, on prior2 also "
              "MALA, NUTS} x others {all spy, set A} x counts {(1..),(3,1,2)}, depth<=2, plus the cuqi.sampler.Gibbs cells of "
              "these assignments that have no gradient kernel (all-spy others only when the non-Posterior block is "
-             "not a spy)",
+             "not a spy); "
+             "step-count facet (HybridGibbs; hier3, hier2, gauss2; depth<=2): all-spy blocks x the COMPLETE product "
+             "{0,1,2,3,not listed,None}^blocks (both dicts in joint order; no count listed: no dict and an empty dict); "
+             "all-spy x the rotations of (0,3,2) x ALL pairs (strategy-dict permutation, step-dict permutation), "
+             "(not listed,0,2) and (0,None,not listed) x all strategy permutations; the HELD block (count 0, the others "
+             "(3,1,2)) x every kernel it admits {Conjugate | LinearRTO, MH, on v of gauss2 also NUTS, MALA} x others "
+             "{all spy, set A}; a NUTS / MALA block (count 2) with all other blocks held; all-MH blocks x the rotations "
+             "of (0,1,2); representation of the number (all-spy): numpy.int64 everywhere x {rotations of (0,1,2), (3,1,2), "
+             "all 0} x {joint order, both dicts reversed}, bool everywhere x all {False,True}^blocks, float everywhere x "
+             "{all 1.0, rotations of (0.0,1.0,2.0)}, ONE block in {int64 0/2, float 0.0/1.0/2.0, False/True} (each position) "
+             "with python ints (3,1,2) / (0,2,0) on the others; set A x rotations of int64 (0,1,2) and of (False,True,2)",
     "thorough": "as quick but: all assignments of {spy,conj|rto,mh,nuts,mala} kinds (hier3c: those with a NUTS/MALA "
                 "block); num_sampling_steps: full {1,2,3}^blocks product (3-block cells with MH: the 3 all-equal "
                 "patterns + the 6 permutations of (1,2,3); 3-block cells with NUTS/MALA: the 3 all-equal patterns + the 3 "
@@ -110,7 +131,12 @@ BOUND = {
                 "joint hier3m (y ~ N(Ax, 1/(d l))), every key order x member order for every joint order, 1-tuples on "
                 "all joints, real classes: ALL assignments of {spy, common class} to the keys (depth<=2 with <=1 MH block, "
                 "else 1) in joint order and reversed; HybridGibbs joint orders also on hier3h, hier3m; conditional-type "
-                "facet: all assignments of the four joints with the main product's step-count patterns and depths",
+                "facet: all assignments of the four joints with the main product's step-count patterns and depths; "
+                "step-count facet: the complete product {0,1,2,3,not listed,None}^blocks at depth<=3 in joint order and at "
+                "depth<=2 with both / either dict reversed; all {0,2,not listed}^blocks patterns with a 0 x ALL permutation "
+                "pairs; representation: the complete product {int 0/2, int64 0/2, float 0.0/2.0, False/True}^blocks "
+                "(all-spy); every assignment of the main product (also hier3c) x {one block held, the others (3,1,2)} and "
+                "(3-block joints) {one block moving (count 2), the others held}",
 }
 ASSUMPTIONS = [
     "reference joint log-densities (and the gradients of the Gaussian vector blocks, self-checked against central "
@@ -151,6 +177,13 @@ ASSUMPTIONS = [
     "class is recorded per transition (branch counts 'conditional-type:<class>:<kernel>') and enters the signature when "
     "it is not Posterior; MALA / NUTS on a MultipleLikelihoodPosterior block are not offered (the library has no "
     "gradient for it when another block's prior is among the factors); CWMH / pCN / ULA blocks are not in the alphabet",
+    "step counts: the configured number of a block is the integer VALUE of what the user's dict lists for it (documented: "
+    "'the number of times the sampler will call its step method in each Gibbs step. Default is 1'): 0 = no transition "
+    "(the block is held; read from the unchanged code: range(0)), a block that is not listed or listed with None has "
+    "the default 1; numpy.int64 / bool / integral float are representations of the same integer - a representation "
+    "the library refuses (float, None: TypeError at the first visit of that block) ends the history as a refusal, a run "
+    "that is not refused must make exactly that number of transitions; negative and non-integral numbers, 0-d arrays "
+    "and changing num_sampling_steps on a live sampler are not enumerated; cuqi.sampler.Gibbs takes no step counts",
     "dict orders: Python dicts keep insertion order; the blocks of a sweep are expected in the joint's parameter order "
     "(target.get_parameter_names()) whatever the order of the user's dicts",
 ]
@@ -1251,9 +1284,12 @@ class Judge:
             snap = obs["ops"][oi]
             if snap["n_events"] != ei:
                 ev = events[ei]
-                self.fail("sweep", "extra-transition" + self.order_facet + self.count_facet.get(ev["block"], ""),
-                          "operation %d made %d block transitions, the reference sweep makes %d (first extra: block %r)"
-                          % (oi, snap["n_events"], ei, ev["block"]))
+                held = nsteps.get(ev["block"]) == 0      # the first extra transition: a block configured with 0
+                self.fail("sweep", ("transition-count" if held else "extra-transition") + self.order_facet
+                          + self.count_facet.get(ev["block"], ""),
+                          "operation %d made %d block transitions, the reference sweep makes %d (first extra: block %r%s)"
+                          % (oi, snap["n_events"], ei, ev["block"],
+                             ", for which 0 transitions per sweep are configured" if held else ""))
                 return compared
             for b in model.order:
                 want = (np.array([s[b] for s in stored]).T if stored else np.zeros((model.dim[b], 0)))
